@@ -89,31 +89,45 @@ static std::vector<std::string> split_path(const std::string& path) {
   return parts;
 }
 
-std::shared_ptr<Inode> lookup(const std::string& path) {
-  if (!is_sim_path(path.c_str())) return nullptr;
+// Path walk with symbolic links: links met in the directory part are always followed, a link as the last
+// component only if follow_final (stat/open/opendir follow, lstat/unlink/rmdir do not).
+static std::shared_ptr<Inode> walk(const std::string& path, bool follow_final, int depth) {
+  if (!is_sim_path(path.c_str()) || depth > 8) return nullptr;
+  auto parts = split_path(path);
   auto cur = g_world.root;
-  for (auto& part : split_path(path)) {
+  for (size_t i = 0; i < parts.size(); i++) {
     if (cur->kind != Kind::DIR) return nullptr;
-    auto it = cur->entries.find(part);
+    auto it = cur->entries.find(parts[i]);
     if (it == cur->entries.end()) return nullptr;
     cur = it->second;
+    bool last = i + 1 == parts.size();
+    if (cur->kind == Kind::SYMLINK && (!last || follow_final)) {
+      cur = walk(cur->link_target, true, depth + 1);
+      if (!cur) return nullptr;
+    }
   }
   return cur;
 }
+
+std::shared_ptr<Inode> lookup(const std::string& path) { return walk(path, false, 0); }
+std::shared_ptr<Inode> lookup_follow(const std::string& path) { return walk(path, true, 0); }
 
 static std::shared_ptr<Inode> lookup_parent(const std::string& path, std::string& leaf) {
   auto parts = split_path(path);
   if (parts.empty()) return nullptr;
   leaf = parts.back();
-  parts.pop_back();
-  auto cur = g_world.root;
-  for (auto& part : parts) {
-    if (cur->kind != Kind::DIR) return nullptr;
-    auto it = cur->entries.find(part);
-    if (it == cur->entries.end()) return nullptr;
-    cur = it->second;
-  }
-  return cur->kind == Kind::DIR ? cur : nullptr;
+  size_t slash = path.find_last_not_of('/');
+  slash = path.rfind('/', slash);
+  std::string dir = path.substr(0, slash);
+  auto cur = dir.size() <= 4 ? g_world.root : walk(dir, true, 0);
+  return cur && cur->kind == Kind::DIR ? cur : nullptr;
+}
+
+std::shared_ptr<Inode> mksymlink(const std::string& path, const std::string& target) {
+  auto n = mkfile(path, "");
+  n->kind = Kind::SYMLINK;
+  n->link_target = target;
+  return n;
 }
 
 bool exists(const std::string& path) { return lookup(path) != nullptr; }
@@ -574,6 +588,7 @@ struct Cookie {
 };
 
 static ssize_t cookie_read(void* cookie, char* buf, size_t size) {
+  if (g_world.io_hook) g_world.io_hook(false);
   vsim::Quiet quiet;
   Cookie* ck = (Cookie*)cookie;
   OpenFile* of = fd_entry(ck->fd);
@@ -585,6 +600,7 @@ static ssize_t cookie_read(void* cookie, char* buf, size_t size) {
 }
 
 static ssize_t cookie_write(void* cookie, const char* buf, size_t size) {
+  if (g_world.io_hook) g_world.io_hook(true);
   vsim::Quiet quiet;
   Cookie* ck = (Cookie*)cookie;
   OpenFile* of = fd_entry(ck->fd);
@@ -757,7 +773,7 @@ int __wrap_open(const char* path, int flags, ...) {
     return -1;
   }
   std::string p(path);
-  auto n = lookup(p);
+  auto n = lookup_follow(p);
   if (!n) {
     if (!(flags & O_CREAT)) {
       w.calls.natural_errors++;
@@ -801,7 +817,7 @@ FILE* __wrap_fopen(const char* path, const char* mode) {
   World& w = g_world;
   w.calls.opens++;
   std::string p(path);
-  auto n = lookup(p);
+  auto n = lookup_follow(p);
   bool writing = mode[0] == 'w' || mode[0] == 'a';
   if (!n) {
     if (!writing) {
@@ -874,6 +890,7 @@ static void fill_stat(const Inode& n, struct stat* st) {
     case Kind::DIR: st->st_mode = S_IFDIR | 0755; break;
     case Kind::STREAM: st->st_mode = S_IFIFO | 0600; break;
     case Kind::URANDOM: st->st_mode = S_IFCHR | 0666; break;
+    case Kind::SYMLINK: st->st_mode = S_IFLNK | 0777; break;
   }
   st->st_size = (n.kind == Kind::REG) ? n.data.size() : 0;
   st->st_nlink = 1;
@@ -888,9 +905,9 @@ int __wrap_fstat(int fd, struct stat* st) {
   return 0;
 }
 
-static int stat_path(const char* path, struct stat* st) {
+static int stat_path(const char* path, struct stat* st, bool follow) {
   if (g_world.between_dir_calls) g_world.between_dir_calls();
-  auto n = lookup(path);
+  auto n = follow ? lookup_follow(path) : lookup(path);
   if (!n) {
     g_world.calls.natural_errors++;
     errno = ENOENT;
@@ -902,12 +919,12 @@ static int stat_path(const char* path, struct stat* st) {
 
 int __wrap_stat(const char* path, struct stat* st) {
   if (!is_sim_path(path)) return __real_stat(path, st);
-  return stat_path(path, st);
+  return stat_path(path, st, true);
 }
 
 int __wrap_lstat(const char* path, struct stat* st) {
   if (!is_sim_path(path)) return __real_lstat(path, st);
-  return stat_path(path, st);
+  return stat_path(path, st, false);
 }
 
 int __wrap_fcntl(int fd, int cmd, ...) {
@@ -963,7 +980,7 @@ int __wrap_poll(struct pollfd* pfds, nfds_t n, int timeout) {
 DIR* __wrap_opendir(const char* path) {
   if (!is_sim_path(path)) return __real_opendir(path);
   if (g_world.between_dir_calls) g_world.between_dir_calls();
-  auto n = lookup(path);
+  auto n = lookup_follow(path);
   if (!n) {
     g_world.calls.natural_errors++;
     errno = ENOENT;
